@@ -276,6 +276,8 @@ class World:
         self.zero_rets = {}         # fname -> src: integer functions that can return such a value (derived, transitively)
         self.zero_params = {}       # (fname, i) -> src: integer parameters that receive such a value unchecked at some call (used for divisions in the callee only)
         self.mustdiv = {}           # (fname, i) -> True: the function divides by its i-th parameter unconditionally (one-level summaries, transitive)
+        self.flag_kinds = {}        # (record, boolean field) -> {suffix ending in ->kind: kinds}: every store of `true` into the flag happens where the owner's
+                                    #   sub-object has one of these kinds (validated at construction); derived by derive_flag_kinds
         self.evaluators = set()     # functions that compute the value of an expression node (first parameter): outcomes of tests on their results are remembered
         self.enum_universe = {}
         for u in self.units.values():
@@ -503,6 +505,8 @@ class Engine:
         self.fstores = []      # (record, field, class, src, node): stores of integer values into record fields
         self.evlocals = {}     # local (declared with an initializer, never assigned again) -> key of the evaluator call it holds
         self.ev_black = set()
+        self.flag_stores = []  # (record, boolean field, constant stored | None, {suffix->kind: kinds known on the owner at the store})
+        self.path_rec = {}     # path of a field -> record that owns it
 
     # ---- paths ---------------------------------------------------------------
     def root_path(self, n):
@@ -713,6 +717,8 @@ class Engine:
         else:
             path = bp + '.' + f
         v = Val(path=path, ctype=t)
+        if path is not None and rec is not None and t in ('_Bool', 'bool'):
+            self.path_rec[path] = rec
         if '[' in t and not is_ptr_type(t):
             v.nul = 'NN'
             return v
@@ -968,7 +974,7 @@ class Engine:
                     if p is not None:
                         self.assign_path(s2, p, v, e)
                         self.note_store(s2, a, p)
-                    self.note_fstore(s2, a, v, e)
+                    self.note_fstore(s2, a, v, e, p)
                     out.append((s2, Val(path=p, nul=v.nul, src=v.src, const=v.const, ename=v.ename, vs=v.vs)))
             return out
         if op == ',':
@@ -1082,8 +1088,8 @@ class Engine:
             new = worse
         self.divs[key] = new
 
-    def note_fstore(self, S, lhs, v, node):
-        """store of an integer value into a record field (for the rule on fields that are used as divisors)"""
+    def note_fstore(self, S, lhs, v, node, p=None):
+        """store of an integer value into a record field (for the rule on fields that are used as divisors; flags set at construction)"""
         e = lhs
         while e.kind in TRANSPARENT:
             e = e.inner[0]
@@ -1094,6 +1100,18 @@ class Engine:
         if rec is None:
             return
         self.fstores.append((rec, e.name, self.zclass(S, v), v.src, node))
+        if (e.dtype or e.type or '') in ('_Bool', 'bool'):
+            facts = {}
+            bp = None
+            if p is not None and p.endswith('->' + e.name):
+                bp = p[:-(len(e.name) + 2)]
+            elif p is not None and p.endswith('.' + e.name):
+                bp = p[:-(len(e.name) + 1)]
+            if bp is not None:
+                for q, f in S.vs.items():
+                    if q.startswith(bp + '->') and q.endswith('->kind') and f[0] == 'in' and all(isinstance(x, str) for x in f[1]):
+                        facts[q[len(bp):]] = f[1]
+            self.flag_stores.append((rec, e.name, v.const if v.path is None else None, facts))
 
     def e_CompoundAssignOperator(self, e, S):
         out = []
@@ -1489,8 +1507,36 @@ class Engine:
             T.nul[v.path] = ('NN', v.src if v.nul == 'N' else None)
             F.nul[v.path] = ('NULL', v.src if v.nul == 'N' else None)
             self.ev_outcome(v.path, T, F)
+            if self.W.flag_kinds and not self.flag_true(T, v.path):
+                return [], [F]
             return [T], [F]
         return [S], [S.copy()]
+
+    def flag_true(self, T, path):
+        """the boolean field at `path` is true: the kinds its owner was validated to have when the flag was set (W.flag_kinds); False if contradictory"""
+        rec = self.path_rec.get(path)
+        if rec is None or '->' not in path:
+            return True
+        base, fld = path.rsplit('->', 1)
+        fk = self.W.flag_kinds.get((rec, fld))
+        if not fk:
+            return True
+        for suf, K in fk.items():
+            q = base + suf
+            cur = T.vs.get(q)
+            if cur is None:
+                self.set_vs(T, q, ('in', frozenset(K)))
+            elif cur[0] == 'in':
+                r = cur[1] & K
+                if not r:
+                    return False
+                self.set_vs(T, q, ('in', frozenset(r)))
+            else:
+                r = frozenset(K) - cur[1]
+                if not r:
+                    return False
+                self.set_vs(T, q, ('in', r))
+        return True
 
     def ev_outcome(self, path, T, F):
         """the tested local holds the result of an evaluator call: remember the outcome like a test of the call itself"""
@@ -2152,6 +2198,37 @@ def solve(W, max_rounds=12):
         raise AnalysisBroken('derived tables do not reach a fixpoint')
     W.rounds = rnd + 1
     return engines
+
+
+def derive_flag_kinds(W, engines):
+    """boolean fields that are set to true only where a sub-object of the owner is known to have certain kinds (the constructor validated it):
+    (record, field) -> {suffix: kinds}.  A store of a value that is not a constant makes the field underivable.  Returns the field names."""
+    acc = {}
+    # records that are also built by an initializer list with explicit values (`&(Type){TY_INT, 4, 4, true}`): their flags are not only set by stores
+    listed = set()
+    for u in W.units.values():
+        for top in list(u.globals.values()) + list(u.functions.values()):
+            for n in top.walk():
+                if n.kind == 'InitListExpr' and any(c.kind != 'ImplicitValueInitExpr' for c in n.inner):
+                    r = rec_of(n.type)
+                    if r:
+                        listed.add(r)
+    for e in engines.values():
+        for rec, fld, const, facts in e.flag_stores:
+            k = (rec, fld)
+            if const == 0:
+                continue
+            if rec in listed:
+                acc[k] = None
+                continue
+            if const is None or not facts:
+                acc[k] = None
+            elif k not in acc:
+                acc[k] = dict(facts)
+            elif acc[k] is not None:
+                acc[k] = {suf: (K | facts[suf]) for suf, K in acc[k].items() if suf in facts} or None
+    W.flag_kinds = {k: v for k, v in acc.items() if v}
+    return set(f for (r, f) in W.flag_kinds)
 
 
 def derive_entry_facts(W, engines, skip_units=(), max_rounds=6):
